@@ -185,8 +185,12 @@ func sendTCP(conn *net.TCPConn, b []byte) ([]byte, error) {
 	}
 	s := binary.BigEndian.Uint32(sh)
 
-	rb := make([]byte, s, s)
-	_, err = io.ReadFull(conn, rb)
+	// Read through a buffer that grows with the data actually received: the length is announced by the
+	// peer and must not be believed to the point of allocating up to 4GiB for it.
+	rb, err := io.ReadAll(io.LimitReader(conn, int64(s)))
+	if err == nil && uint32(len(rb)) != s {
+		err = io.ErrUnexpectedEOF
+	}
 	if err != nil {
 		return r, fmt.Errorf("error reading response: %v", err)
 	}
